@@ -43,6 +43,8 @@ RULE = ('sanitizer run: complete enumeration of symmetric graphs on 1..4 (5 thor
         'aggregation, tentative prolongator, prolongation smoothing, every relaxation method and block size, graph '
         'algorithms, sparse/dense helpers) + full solver setups/solves; evaluations = kernel calls executed under the '
         'sanitizers + checked-twin cases; distinct = distinct (kernel, input matrix) pairs')
+RULE += (' '
+         'Corpus incl. dense-GMRES AIR paths (maxiter below / at the local size, CSR and BSR).')
 TRUSTED = ['GCC 12 AddressSanitizer / UndefinedBehaviorSanitizer / LeakSanitizer runtimes (oracle side)',
            'NumPy allocates each array with malloc of its exact byte size (so the red zones start at the array ends)']
 PARTIAL = ['60 of 66 kernels: sanitizer oracle only, no theorem',
